@@ -199,9 +199,12 @@ def _poly_operand(expr):
 # ---- end to end: real sampler -> real normal ---------------------------------------------------
 
 
-def sampled_case(expr, method, n, k, orient=None, side=None, link_only=False, dep=None, called=False, **kw):
+def sampled_case(expr, method, n, k, orient=None, side=None, link_only=False, dep=None, called=False, after_other=False, **kw):
+    """after_other: another object of the same kind (other symbolic parameters) and this one were sampled in the same way
+    just before"""
     name = expr_name(expr) + ("[t]" if dep else "")
-    tag = name + ("/" + orient if orient else "") + ("/" + side if side else "") + ("/called" if called else "")
+    tag = name + ("/" + orient if orient else "") + ("/" + side if side else "") + ("/called" if called else "") + (
+        "/after_other_object" if after_other else "")
     cname = "%s/%s/%s/n%d/k%d" % ("sampled" if link_only else "normal", tag, method, n, k)
 
     def body(env):
@@ -214,6 +217,12 @@ def sampled_case(expr, method, n, k, orient=None, side=None, link_only=False, de
         if called:  # the boundary object after a partial evaluation (here of a variable it does not depend on),
             bd = bd(t=env.tensor("v_t", ()))  # as ProductDomain.__call__ and PlotSampler do with every domain
         f = bd.sample_random_uniform if method == "random" else bd.sample_grid
+        if after_other:
+            other = build(env, (expr[0], "Z"), dep).sh
+            env.assume(other.oset.positive({}, env.L))
+            ob = other.dom.boundary
+            (ob.sample_random_uniform if method == "random" else ob.sample_grid)(n=n)
+            f(n=n, params=P)
         pts = f(n=n, params=P)
         nrm = None if link_only else bd.normal(pts, P)
         names, dims = list(pts.space.keys()), [pts.space[v] for v in pts.space]
@@ -542,6 +551,8 @@ def cases(tier):
     for n in (1, 3):
         cs.append(sampled_case(C, "grid", n, 0))
     cs.append(optional_parameter_case("Circle"))
+    cs.append(sampled_case(S, "grid", 2, 0, after_other=True))
+    cs.append(sampled_case(C, "grid", 3, 0, after_other=True))
     if not quick:
         cs.append(optional_parameter_case("Sphere"))
     # polygons: generic point of every edge (interior, corner zones, corners), both orientations
